@@ -193,6 +193,10 @@ func (rg *c06rig) request(c c06case) (obs c06obs, err error) {
 		if c.Route == "http-upgrade" {
 			hs = append(hs, [2]string{"Upgrade", "websocket"}, [2]string{"Connection", "Upgrade"})
 		}
+		if c.Route == "http-connection-lists-marker" {
+			// legal HTTP: the client names headers in Connection, asking proxies to drop them
+			hs = append(hs, [2]string{"Connection", "x-piko-forward"})
+		}
 		raw := BuildRequest("GET", "/c06", "127.0.0.1", hs, nil, false)
 		if c.Route == "http-upgrade" {
 			// BuildRequest adds Connection: close; an upgrade request must not carry it
@@ -337,7 +341,7 @@ func beliefFromBits(n int, bits int) [][]bool {
 	return b
 }
 
-var c06Routes = []string{"http", "http-upgrade", "tcp"}
+var c06Routes = []string{"http", "http-upgrade", "http-connection-lists-marker", "tcp"}
 
 // runC06Space enumerates belief matrices [from, to) for cluster size n.
 func runC06Space(sh *core.Shard, a props.Args, n int, noTimeout bool, beliefs []int, label string) bool {
